@@ -121,6 +121,15 @@ func gen(g *common.Gen) {
 			g.Op("rt %s %s", txt, common.Pick(r, []string{"s2", "s3", "s7"}))
 			g.Op("rt %s %s", txt, common.Pick(r, []string{"s1z", "s2z", "s3z"}))
 			g.Stat("value")
+			if m.HasKind("time") && r.Chance(1, 2) {
+				SubMs = true
+				v2 := m.GenValue(r.Fork(), 0)
+				SubMs = false
+				g.Op("new %s", m.Key())
+				g.Op("enc %s", v2.Text())
+				g.Op("new %s", m.Key())
+				g.Stat("enc-submillisecond")
+			}
 			if v.NonTrivial(true) {
 				g.Stat("value-nontrivial")
 			}
